@@ -24,6 +24,7 @@ HOOK_CFG = "chialisp_verif"
 
 ENV = dict(os.environ)
 ENV["CARGO_NET_OFFLINE"] = "true"
+ENV.setdefault("RUSTUP_TOOLCHAIN", "stable-x86_64-unknown-linux-gnu")
 ENV["CARGO_TARGET_DIR"] = TARGET
 
 
@@ -240,30 +241,32 @@ def _run_shard(cmd, lines, timeout_line, results, offset, env=None, cwd=None):
                 pass
         th = threading.Thread(target=feed, daemon=True)
         th.start()
-        timer = {"t": None}
+        state = {"last": time.time(), "done": False, "killed": False}
 
-        def arm():
-            if timer["t"]:
-                timer["t"].cancel()
-            t = threading.Timer(timeout_line, lambda: p.kill())
-            t.daemon = True
-            t.start()
-            timer["t"] = t
-        arm()
-        killed_at = None
+        def watchdog(p=p, state=state):
+            while not state["done"]:
+                time.sleep(0.5)
+                if time.time() - state["last"] > timeout_line and not state["done"]:
+                    state["killed"] = True
+                    try:
+                        p.kill()
+                    except Exception:
+                        pass
+                    return
+        wd = threading.Thread(target=watchdog, daemon=True)
+        wd.start()
         while i < n:
             line = p.stdout.readline()
             if not line:
                 break
             results[offset + i] = line.rstrip("\n")
             i += 1
-            arm()
-        if timer["t"]:
-            timer["t"].cancel()
+            state["last"] = time.time()
+        state["done"] = True
         rc = p.wait()
         if i < n:
             # the process died (abort / stack overflow / kill on timeout) while working on line i
-            if rc == -9:
+            if state["killed"]:
                 results[offset + i] = "TIMEOUT"
             else:
                 results[offset + i] = "ABORT rc=%s" % rc
@@ -423,6 +426,9 @@ class Check:
         self.known = [k for k in load_known() if k.get("property") == prop]
         self.notes = []
         os.makedirs(os.path.join(VERIF, "replays"), exist_ok=True)
+        for f in os.listdir(os.path.join(VERIF, "replays")):
+            if f.startswith(prop + "-"):
+                os.remove(os.path.join(VERIF, "replays", f))
         os.makedirs(os.path.join(VERIF, "evidence"), exist_ok=True)
 
     # -- reporting
